@@ -284,6 +284,196 @@ def header_bits():
     return run
 
 
+# ------------------------------------------------------------------ C level (ll2smt)
+def c_aead(fname):
+    """functional obligations on the LLVM IR of AEAD_encrypt / AEAD_decrypt: what is handed to the
+    (ideal) cipher is exactly what RFC 9001 s5.3 prescribes -- nonce = iv XOR packet number, the
+    header as associated data, the whole payload, the trailing 16 bytes as tag -- and a failed
+    tag verification never yields a plaintext"""
+
+    def run():
+        import time
+
+        import z3
+
+        from .. import cmodel as C
+        from .. import ll2smt as L
+        from ..ll2smt import Ptr, bv
+
+        t0 = time.time()
+        ex, paths, ctx = C.run_crypto_fn(fname)
+        mod = ctx["mod"]
+        T = L.TNamed(ctx["struct"])
+        off_buf, off_key, off_iv, off_nonce = (mod.field_off(T, i)[0] for i in (3, 4, 5, 6))
+        arr0 = ctx["self_arr0"]
+        pn = ex.inputs["arg2_K"]
+        dlen, alen = ex.inputs["arg0_len"], ex.inputs["arg1_len"]
+        enc = fname.endswith("encrypt")
+        viols, samples = [], []
+        nchecks = 0
+
+        def model_inputs(pc, extra):
+            vals = {"_fn": fname}
+            if ex.check(*(pc + extra)) == z3.sat:
+                m = ex.solver.model()
+                for n, t in ex.inputs.items():
+                    vals[n] = m.eval(t, model_completion=True).as_long()
+                vals["iv"] = [m.eval(z3.Select(arr0, bv(off_iv + k, 64)), model_completion=True).as_long() for k in range(12)]
+            return vals
+
+        def must(pc, cond, msg):
+            nonlocal nchecks
+            nchecks += 1
+            r = ex.check(*(pc + [z3.Not(cond)]))
+            if r == z3.unsat:
+                return True
+            if r != z3.sat:
+                ex.inconclusive.append("solver unknown: " + msg)
+                return True
+            viols.append({"msg": "%s: %s" % (fname[1:], msg), "site": fname[1:], "inputs": model_inputs(pc, [z3.Not(cond)])})
+            return False
+
+        def at(ptr, name, off):
+            return isinstance(ptr, Ptr) and ptr.obj is not None and ptr.obj.name == name and (ptr.off == bv(off, 64) if not z3.is_bv(off) else ptr.off == off)
+
+        def struct_fail(msg):
+            viols.append({"msg": "%s: %s" % (fname[1:], msg), "site": fname[1:], "inputs": {"_fn": fname}})
+
+        for p in paths:
+            # precondition: the header argument is shorter than 2^31 bytes (it is cast to the int
+            # OpenSSL takes); callers pass packet headers of at most a datagram
+            pc = list(p.cond) + [z3.ULE(alen, bv((1 << 31) - 1, 64))]
+            calls = p.calls
+            names = [c[0] for c in calls]
+            ok_path = p.exc is None and not (isinstance(p.ret, Ptr) and p.ret.obj is None)
+            inits = [c for c in calls if c[0] == "EVP_CipherInit_ex"]
+            ivb = [c for c in calls if c[0] == "init_iv_bytes"]
+            upd = [c for c in calls if c[0] == "EVP_CipherUpdate"]
+            fin = [c for c in calls if c[0] == "EVP_CipherFinal_ex"]
+            ctl = [c for c in calls if c[0] == "EVP_CIPHER_CTX_ctrl"]
+            if len(inits) > 1 or len(upd) > 2 or len(fin) > 1:
+                struct_fail("cipher driven more than once in one call: %s" % names)
+                continue
+            for c, bs in zip(inits, ivb):
+                _, key, iv, e = c
+                c1 = at(key, "self", off_key)
+                c2 = at(iv, "self", off_nonce)
+                if c1 is False or c2 is False:
+                    struct_fail("cipher initialised with a key/nonce that is not the object's key[] / nonce[]")
+                    continue
+                must(pc, z3.And(c1, c2), "key / nonce pointers are not self->key / self->nonce")
+                must(pc, e == (1 if enc else 0), "cipher direction flag")
+                spec = []
+                for k in range(12):
+                    b = z3.Select(arr0, bv(off_iv + k, 64))
+                    if k >= 4:
+                        sh = 8 * (11 - k)
+                        b = b ^ z3.Extract(sh + 7, sh, pn)
+                    spec.append(b)
+                must(pc, z3.And(*[x == y for x, y in zip(bs[1], spec)]), "nonce is not iv XOR the 62-bit packet number, left-padded (RFC 9001 s5.3)")
+            if upd:
+                _, out, inp, inl = upd[0]
+                if out.obj is not None or at(inp, "arg1", 0) is False:
+                    struct_fail("first update is not the associated-data pass over the header argument")
+                else:
+                    must(pc, z3.And(at(inp, "arg1", 0), z3.SignExt(32, inl) == alen), "associated data is not the whole header argument")
+                if names.index("EVP_CipherUpdate") < (names.index("EVP_CipherInit_ex") if inits else 1 << 30):
+                    struct_fail("data fed to the cipher before the nonce is set")
+            if len(upd) == 2:
+                _, out, inp, inl = upd[1]
+                want = dlen if enc else dlen - 16
+                if at(out, "self", off_buf) is False or at(inp, "arg0", 0) is False:
+                    struct_fail("payload pass does not read the payload argument into self->buffer")
+                else:
+                    must(pc, z3.And(at(out, "self", off_buf), at(inp, "arg0", 0), z3.SignExt(32, inl) == want), "payload pass does not cover %s" % ("the whole plaintext" if enc else "the ciphertext without its 16-byte tag"))
+            tags = [c for c in ctl if c[1] in (0x10, 0x11)]
+            if not enc:
+                # the expected tag must be set from the last 16 bytes of the input before verification
+                if fin and not [c for c in tags if c[1] == 0x11]:
+                    struct_fail("tag verification without setting the expected tag")
+                for c in tags:
+                    if c[1] == 0x11:
+                        ptr = c[3]
+                        if at(ptr, "arg0", 0) is False:
+                            struct_fail("expected tag not taken from the payload argument")
+                        else:
+                            must(pc, z3.And(c[2] == 16, ptr.off == dlen - 16), "expected tag is not the last 16 bytes of the input")
+                if ok_path:
+                    if not fin or len(upd) != 2 or not inits:
+                        struct_fail("a plaintext is returned without tag verification (calls: %s)" % names)
+                    else:
+                        must(pc, fin[0][1] != 0, "a plaintext is returned although tag verification failed")
+            else:
+                if ok_path:
+                    if not fin or len(upd) != 2 or not inits or not [c for c in tags if c[1] == 0x10]:
+                        struct_fail("a ciphertext is returned without running the cipher to completion and fetching the tag (calls: %s)" % names)
+            if ok_path:
+                for r in p.results:
+                    if r[0] == "bytes":
+                        if at(r[1], "self", off_buf) is False:
+                            struct_fail("result not taken from self->buffer")
+                        else:
+                            must(pc, at(r[1], "self", off_buf), "result not taken from the start of self->buffer")
+            if len(samples) < 3:
+                samples.append({"function": fname[1:], "path_outcome": ("raises %s" % p.exc) if p.exc else "returns", "external_calls": names[:10]})
+        return {"paths": len(paths), "paths_with_checks": len(paths), "queries": ex.queries, "solver_time": ex.solver_time, "violations": viols, "inconclusive": sorted(set(ex.inconclusive)), "samples": samples, "exhaustive": not ex.inconclusive, "functional_conditions_checked": nchecks}
+
+    return run
+
+
+def replay_c_aead(inputs):
+    """differential replay on a plain build of the current _crypto.c: the compiled AEAD object against
+    the `cryptography` AES-GCM reference with the RFC nonce, on the solver's packet number / iv / lengths"""
+    from .. import cmodel as C
+
+    g = inputs.get
+    pn = g("arg2_K", 0)
+    iv = bytes(g("iv", [0] * 12))
+    n = max(0, min(g("arg0_len", 32), 1200))
+    a = max(0, min(g("arg1_len", 9), 200))
+    script = (
+        "from aioquic._crypto import AEAD, CryptoError\n"
+        "from cryptography.hazmat.primitives.ciphers.aead import AESGCM\n"
+        "key = bytes(range(16)); iv = %r; pn = %d\n"
+        "nonce = iv[:4] + bytes(x ^ y for x, y in zip(iv[4:], pn.to_bytes(8, 'big')))\n"
+        "bad = []\n"
+        "for n, a in ((%d, %d), (1, 0), (20, 9), (1200, 30)):\n"
+        "    pt = bytes((7 * i + 1) & 255 for i in range(n)); ad = bytes((3 * i + 2) & 255 for i in range(a))\n"
+        "    ref = AESGCM(key).encrypt(nonce, pt, ad)\n"
+        "    o = AEAD(b'aes-128-gcm', key, iv)\n"
+        "    try:\n"
+        "        ct = o.encrypt(pt, ad, pn)\n"
+        "    except CryptoError as e:\n"
+        "        ct = e\n"
+        "    if ct != ref: bad.append('encrypt(%%d,%%d) differs from AES-GCM under the RFC nonce' %% (n, a))\n"
+        "    try:\n"
+        "        back = o.decrypt(ref, ad, pn)\n"
+        "    except CryptoError as e:\n"
+        "        back = e\n"
+        "    if back != pt: bad.append('decrypt of a genuine packet (%%d,%%d) fails or differs' %% (n, a))\n"
+        "    for pos in sorted({0, len(ref) // 2, len(ref) - 16, len(ref) - 1}):\n"
+        "        forged = bytearray(ref); forged[pos] ^= 1\n"
+        "        try:\n"
+        "            o.decrypt(bytes(forged), ad, pn); bad.append('forged packet accepted (byte %%d of %%d)' %% (pos, len(ref)))\n"
+        "        except CryptoError:\n"
+        "            pass\n"
+        "    if a:\n"
+        "        try:\n"
+        "            o.decrypt(ref, bytes([ad[0] ^ 1]) + ad[1:], pn); bad.append('altered header accepted')\n"
+        "        except CryptoError:\n"
+        "            pass\n"
+        "    try:\n"
+        "        o.decrypt(ref, ad, pn ^ 1); bad.append('packet accepted under another packet number')\n"
+        "    except CryptoError:\n"
+        "        pass\n"
+        "print(bad)\n"
+        "assert not bad, bad\n"
+    ) % (iv, pn, n, a)
+    rc, out = C.run_plain(script)
+    last = out.strip().splitlines()[-1] if out.strip() else ""
+    return {"reproduced": rc not in (0, None), "msg": ("compiled AEAD vs reference: " + last[:300]) if rc else "", "why": out[-600:], "script": script}
+
+
 def obligations(tier):
     obs = []
     for bits in (8, 16, 24, 32):
@@ -295,4 +485,6 @@ def obligations(tier):
     from . import c05
 
     obs.append(Ob("C02.drop.server_first_flight", forged_then_genuine(), c05.hdr_shims, ["aioquic.quic.connection.QuicConnection.receive_datagram", "aioquic.quic.connection.QuicConnection._initialize"], bounds="first Initial with any alteration of its 8 destination-CID bytes, or any other alteration (authentication failure), followed by the genuine Initial", stubs=["CryptoPair -> transparent; Initial keys open only packets protected under the same destination CID", "tls.Context -> stub"], budget_s=300))
+    for fn in ("@AEAD_encrypt", "@AEAD_decrypt"):
+        obs.append(Ob("C02.c.%s" % fn[1:], c_aead(fn), kind="custom", replay_fn=replay_c_aead, encoded=["_crypto.c:%s (LLVM IR, clang -O1)" % fn[1:]], bounds="arbitrary object state (any iv, key), any 64-bit packet number, payload argument of any length <= 2^40, header argument of any length < 2^31; every path of the function", outside="the cipher itself (OpenSSL contract stubs: ideal AEAD); AEAD_init / key installation (C02.glue.*)", stubs=["EVP_* -> contract stubs recording their arguments"], budget_s=600))
     return obs
